@@ -829,7 +829,7 @@ impl Engine for EngineF {
         out
     }
     fn rule(&self) -> String {
-        "seeded REPL sessions against the real binary over pipes: 3-20 submissions of 1-3 forms (definitions, expressions, display with and without newline, run-time and syntax errors, quoted data; in a third of the cases literals containing parentheses and semicolons), each sequence typed under 3 line splittings (breaks at inter-token positions inside a form only, blank / whitespace-only / comment-only lines, trailing comments containing parentheses), one line at a time in lock-step; in a third of the splittings stdin is closed after a random line. distinct = form kinds x line shapes x EOF position; non-trivial = at least one form was split across lines".into()
+        "seeded REPL sessions against the real binary over pipes (further variations, see DESIGN.md 4.8: macro definitions with and without ellipsis and their uses, many kinds of printed values, multi-line string literals, effectful submissions ending in a surplus parenthesis or a dangling quote mark, bar identifiers, now and then 150-260 submissions): 3-20 submissions of 1-3 forms (definitions, expressions, display with and without newline, run-time and syntax errors, quoted data; in a third of the cases literals containing parentheses and semicolons), each sequence typed under 3 line splittings (breaks at inter-token positions inside a form only, blank / whitespace-only / comment-only lines, trailing comments containing parentheses), one line at a time in lock-step; in a third of the splittings stdin is closed after a random line. distinct = form kinds x line shapes x EOF position; non-trivial = at least one form was split across lines".into()
     }
     fn assumptions(&self) -> Vec<String> {
         vec![
